@@ -83,6 +83,18 @@ class Result:
         return [o for o in self.obligations if not o["ok"]]
 
 
+def thorough() -> bool:
+    """True when the current run is the thorough tier (larger enumerated domains; VERIF_SEED seeds random choices)."""
+    return os.environ.get("VERIF_TIER_EFFECTIVE", os.environ.get("VERIF_TIER", "quick")) == "thorough"
+
+
+def seed() -> int:
+    try:
+        return int(os.environ.get("VERIF_SEED", "0"))
+    except ValueError:
+        return 0
+
+
 def run_check(module, repo: Repo) -> Result:
     res = Result(module.PROPERTY)
     try:
